@@ -403,7 +403,9 @@ template <template <class...> class GT, class L> void names(Reporter &R, uint64_
 
 // ---- C15 (b): malformed text ------------------------------------------------
 std::string fuzzToken(Rng &r) {
-    switch (r.u(16)) {
+    switch (r.u(18)) {
+    case 16: return std::to_string(4294967296ull + r.u(12)); // wraps to a small index in a parser that reads 64 bits and casts to 32
+    case 17: return r.chance(1, 2) ? "18446744073709551615" : "9223372036854775808";
     case 0: return std::to_string(r.u(12));
     case 1: return std::to_string(r.u(2001));
     case 2: return "-" + std::to_string(1 + r.u(9));
